@@ -17,6 +17,7 @@ import ALV.Lemmas.C11Float
 import ALV.Lemmas.C11Call
 import ALV.Lemmas.C11LevFloat
 import ALV.Lemmas.C11Round4
+import ALV.Lemmas.C11Src
 import ALV.Model.C11Apply
 import Mathlib.Tactic.Linarith
 import ALV.Common.Audit
@@ -1023,6 +1024,91 @@ theorem stableApply_iff_poles (numLo denLo : Int) (num den : List ℝ) (h : shif
       | some b => ApplyRes.verdict b) = _ ↔ _
   cases stableCall numLo num denLo den <;> simp
 
+/-! ### 15. round 5 — the model is REGENERATED from the source (`harness/props/c11_tr.py`)
+
+`ALV/Gen/C11Src.lean` is rewritten from `audiolazy/lazy_lpc.py` before every build: the statements of
+`parcor` and `parcor_stable`, each library operator replaced by one function of the vocabulary
+`ALV/Model/C11Src.lean`.  The theorems below say that what the source says NOW is the model every
+theorem above is about (on every carrier with the operations, no law of arithmetic used); an edit
+of the source that changes a statement, an operator, a constant or the order breaks them. -/
+section Src
+variable {α : Type} [Add α] [Mul α] [Sub α] [Neg α] [Div α] [OfNat α 0] [OfNat α 1] [DecidableEq α]
+
+/-- **C11.15a** the loop body of `parcor` as it stands in the source (`k = fir_filt.numpoly[m]`,
+`yield k`, `zB = fir_filt(1 / z) * z ** -m`, `(fir_filt - k * zB) / (1 - k ** 2)` under
+`try … except ZeroDivisionError → ParCorError`, `(fir_filt - fir_filt.numpoly[0]) + 1`) is the model's
+loop body, `k ** 2` being the squaring function of the carrier. -/
+theorem src_pstep_is_model :
+    (ALV.Gen.C11.pstep : (α → α) → Nat → α → List α → Nat → α × Option (List α)) = pstepG := by
+  funext pow2 n d w m; exact ALV.Gen.C11.pstep_eq pow2 n d w m
+
+theorem src_ploop_is_model :
+    (ALV.Gen.C11.ploop : (α → α) → Nat → α → Nat → List α → List α × Bool) = ploopG := by
+  funext pow2 n d m w; exact ALV.Gen.C11.ploop_eq pow2 n d m w
+
+/-- **C11.15b** `parcor` as it stands in the source (gain normalisation `gain = numpoly[0]`,
+`if gain != 1: fir_filt /= gain`, the count-down from `len(numerator) - 1` to 1, the generator) is
+the model run by the driver on binary64 … -/
+theorem src_parcor_is_model :
+    (ALV.Gen.C11.parcor : (α → α) → List α → List α × Bool) = parcorFixedG := by
+  funext pow2 num; exact ALV.Gen.C11.parcor_eq pow2 num
+
+/-- … and, with the product for the square, the model of the theorems of sections 1–10 -/
+theorem src_parcor_is_exact_model :
+    (ALV.Gen.C11.parcor (fun k : α => k * k)) = parcorFixed := by
+  funext num; rw [src_parcor_is_model]; exact parcorFixedG_mul num
+
+theorem src_parcor_f64 : ALV.Gen.C11.parcor F64.sqPow = parcorF64 := by
+  rw [src_parcor_is_model]; rfl
+
+/-- **C11.15c** `parcor_stable` as it stands in the source (`all(abs(k) < 1 for k in
+parcor(ZFilter(filt.denpoly)))`, `except ParCorError: return False`) is the model; the numerator
+is not read. -/
+theorem src_parcor_stable_is_model [LT α] [DecidableLT α] :
+    (ALV.Gen.C11.parcorStable : (α → α) → List α → List α → Bool) =
+      fun pow2 _ den => parcorStableFixedG pow2 den := by
+  funext pow2 num den; exact ALV.Gen.C11.parcorStable_eq pow2 num den
+
+theorem src_parcor_stable_is_exact_model [LT α] [DecidableLT α] (num : List α) :
+    ALV.Gen.C11.parcorStable (fun k : α => k * k) num = parcorStableFixed := by
+  funext den; rw [src_parcor_stable_is_model]; exact parcorStableFixedG_mul den
+
+theorem src_parcor_stable_f64 (num : List F64) :
+    ALV.Gen.C11.parcorStable F64.sqPow num = parcorStableF64 := by
+  rw [src_parcor_stable_is_model]; rfl
+
+/-- **C11.15d** the test before the loop (`den = fir_filt.denominator`, `if len(den) != 1: raise
+ValueError`) is the feedback branch of the call model: on a constructed filter the call raises
+`ValueError` there exactly when the regenerated test says so, and otherwise goes on to the
+regenerated `parcor` (behind the two pre-conditions of the constructor's shift). -/
+theorem src_parcor_guard_is_call (numLo denLo : Int) (num den : List K) (h : shiftedDen den ≠ []) :
+    parcorCall numLo num denLo den =
+      if ALV.Gen.C11.parcorGuard (shiftedDen den) then .valueError
+      else
+        let lo := numLo - (denLo + (leadZeros den : Int))
+        let f := causalPart lo num
+        if f.headD 0 = 0 then .zeroDiv
+        else if hasAdvance lo num then .valueError
+        else
+          let r := ALV.Gen.C11.parcor (fun k : K => k * k) f
+          .ok r.1 r.2 := by
+  have hi : stripZeros (shiftedDen den) = shiftedDen den := by
+    unfold shiftedDen; exact stripZeros_idem _
+  rw [ALV.Gen.C11.parcorGuard_eq, hi, src_parcor_is_exact_model]
+  unfold parcorCall
+  rcases hs : shiftedDen den with _ | ⟨a, _ | ⟨b, t⟩⟩
+  · exact absurd hs h
+  · simp
+  · simp
+
+/-- the denominator of `ZFilter(poly)` is the constant 1: the test passes for `parcor_stable` -/
+theorem src_guard_passes_unit_den (h : (1 : α) ≠ 0) : ALV.Gen.C11.parcorGuard ([1] : List α) = false := by
+  rw [ALV.Gen.C11.parcorGuard_eq]
+  have : stripZeros ([1] : List α) = [1] := by simp [stripZeros, h]
+  rw [this]
+
+end Src
+
 /-! ### non-vacuity -/
 example : parcorStableCoded ([2, -1] : List Rat) = false := by decide +kernel
 example : parcorStableSpec (fromPoles (3 : ℝ) [1/2, -3/4] [(0, 1/2), (3/5, 3/5)]) = true := by
@@ -1124,6 +1210,16 @@ example : stableApply [] [("filt", ArgObj.filt 0 ([2, 1] : List Rat) (-1) [1, 1/
 example : stableApply [(ArgObj.rational : ArgObj Rat)] [] = .atCall .attributeError := by decide +kernel
 example : parcorApply [(ArgObj.rational : ArgObj Rat)] [] = .atNext .typeError := by decide +kernel
 example : parcorApply [ArgObj.filt 0 ([2, 5, 2] : List Rat) 0 [1]] [] = .gen [1] true := by decide +kernel
+
+-- section 15: the regenerated definitions run
+example : ALV.Gen.C11.parcor (fun k : Rat => k * k) [3, 3/2, 1/2] = ([1/6, 3/7], false) := by decide +kernel
+example : ALV.Gen.C11.parcorE (fun k : Rat => k * k) [5] [2, 5, 2] = some ([1], true) := by decide +kernel
+example : ALV.Gen.C11.parcorE (fun k : Rat => k * k) [1, 1/2] [1, 1/2] = none := by decide +kernel
+example : ALV.Gen.C11.parcorStable (fun k : Rat => k * k) [7] [2, -1] = true ∧
+    ALV.Gen.C11.parcorStable (fun k : Rat => k * k) [7] [1, -2] = false ∧
+    ALV.Gen.C11.parcorStable (fun k : Rat => k * k) [7] [1, 0, -1] = false := by decide +kernel
+example : ALV.Gen.C11.parcorGuard ([0, 5, 0] : List Rat) = true ∧
+    ALV.Gen.C11.parcorGuard ([5, 0] : List Rat) = false := by decide +kernel
 
 end ALV.Props.C11
 
